@@ -2,6 +2,8 @@
 
 package service
 
+import "time"
+
 // Verification hooks (add-only, compiled only with `-tags verif`): let a harness drive one
 // InsertServiceV2 sub-service step by step without the Run goroutine, and look at its bookkeeping.
 
@@ -63,4 +65,11 @@ func (svc *InsertServiceV2) VerifState() VerifState {
 		st.ColRows = append(st.ColRows, in.Data.Rows())
 	}
 	return st
+}
+
+// VerifPing is the `case <-svc.watchdog.C: svc.ping()` branch of Run, taken with the last request made `age` old
+// (ping does nothing while the last request is younger than a second).
+func (svc *InsertServiceV2) VerifPing(age time.Duration) {
+	svc.lastRequest = time.Now().Add(-age)
+	svc.ping()
 }
